@@ -311,6 +311,7 @@ class Composition:
         blocked, finished, limit_hit = {}, {}, []
         wgets, wputs, cputs_qp, cgets_qr = [], [], [], []
         emits, raises, normal_end, state_bad, items_put = [], [], [], [], []
+        late = self.after_failure = []  # the consumer yields a result / hands out a new input although it already holds a failure
         timeouts = []  # (ex, thread ts, queue)
         self.events = {}
         for t in threads:
@@ -324,6 +325,7 @@ class Composition:
                 pq = {"qp": 0, "qr": 0}
                 getrank = {}
                 nspawn = 0
+                got_failure = False  # consumer only: a failure record has been received earlier on this path
                 for k, ev in enumerate(log):
                     ex = z3.And(here, cut[t] > k)
                     nxt = z3.And(here, cut[t] == k)
@@ -360,6 +362,8 @@ class Composition:
                             bl.append(z3.And(nxt, NputQr <= m))
                             cgets_qr.append((ex, ts[t][k]))
                             getrank[nm] = m
+                            if isinstance(dec.get(nm), int) and dec.get(nm) == K_FAILED:
+                                got_failure = True
                         else:
                             if q != "qp":
                                 raise Inconclusive(f"worker gets from {q}")
@@ -394,6 +398,8 @@ class Composition:
                             cputs_qp.append((ex, ts[t][k]))
                             if val[0] == "item":
                                 items_put.append(ex)
+                                if got_failure:
+                                    late.append(ex)
                         else:
                             if q != "qr":
                                 raise Inconclusive(f"worker puts on {q}")
@@ -421,6 +427,8 @@ class Composition:
                         if src is None or src not in getrank:
                             raise Inconclusive("consumer emitted something that did not come from the results queue")
                         emits.append((ex, getrank[src], ts[t][k]))
+                        if got_failure:
+                            late.append(ex)
                     elif kind == "RAISE":
                         raises.append(ex)
                     elif kind == "END":
